@@ -10,10 +10,25 @@
 //!   `get <label>`                                            GET /pkarr/<label> → `200:<ts>.<id>` | `404` | `400`
 //!   `q <name> <type>`                                        DNS query → `noerror:<recs>` | `nxdomain` | `<rcode>`
 //!   recs = `-` | `!` (DNS part is garbage) | `<name>/<TYPE>/<tag>,...`
-use std::collections::BTreeSet;
+//! end-to-end ops (real client code on both sides of the real server handlers):
+//!   `dict <dict>`                       verdicts of the real address parsers (input of the model only)
+//!   `pub <signer> <idkey> <addrs> <ud>` real `EndpointInfo` (id = key #idkey) → `to_pkarr_signed_packet`
+//!        (secret #signer) → `to_relay_payload` → PUT /pkarr/<z32 signer> → `204` | `400` | `enc-err:<Class>`
+//!   `pubx <signer> <pathkey> <zonekey> <addrs> <ud>` hand-made packet with the same TXT strings at
+//!        `_iroh.<z32 zonekey>`, signed by #signer, PUT under #pathkey
+//!   `res <idkey> <e|r>`                 TXT query `_iroh.<z32>.<origin>` through the DNS handler, then
+//!        `EndpointInfo::from_txt_lookup(name, answers)` → `ok(id=..;a=<sorted>;ud=..)` | `err:<Class>` | `nxdomain`
+//!   addrs = `~` | `r:<hex url>,i:<hex socket addr>,c:<hex custom addr>` (canonical text), ud = `~` | hex
+use std::{collections::{BTreeMap, BTreeSet}, net::SocketAddr, str::FromStr};
 
 use bytes::Bytes;
 use hdns::dnssrv::*;
+use iroh_base::{CustomAddr, RelayUrl, TransportAddr};
+use iroh_dns::{
+    ParseError,
+    endpoint_info::{EndpointData, EndpointInfo, UserData},
+    pkarr::{SignedPacketBuildError, Timestamp},
+};
 use iroh_dns_server::verif_hooks::Core;
 use simple_dns::{CLASS, Name, Packet, QCLASS, QTYPE, Question, RCODE, TYPE, rdata::RData};
 use vcommon::*;
@@ -138,6 +153,142 @@ async fn get(core: &Core, label: &str) -> String {
     }
 }
 
+fn hs(s: &str) -> String {
+    hex(s.as_bytes())
+}
+
+fn opt_hs(s: Option<&str>) -> String {
+    s.map_or("~".to_string(), hs)
+}
+
+fn addr_token(a: &TransportAddr) -> String {
+    match a {
+        TransportAddr::Relay(u) => format!("r:{}", hs(&u.to_string())),
+        TransportAddr::Ip(a) => format!("i:{}", hs(&a.to_string())),
+        TransportAddr::Custom(c) => format!("c:{}", hs(&c.to_string())),
+        _ => "x:-".to_string(),
+    }
+}
+
+fn parse_addr_token(t: &str) -> Option<TransportAddr> {
+    let (k, h) = t.split_once(':')?;
+    let s = String::from_utf8(unhex(h)?).ok()?;
+    let a = match k {
+        "r" => TransportAddr::Relay(RelayUrl::from_str(&s).ok()?),
+        "i" => TransportAddr::Ip(SocketAddr::from_str(&s).ok()?),
+        "c" => TransportAddr::Custom(CustomAddr::from_str(&s).ok()?),
+        _ => return None,
+    };
+    (addr_token(&a) == t).then_some(a)
+}
+
+fn addr_text(a: &TransportAddr) -> String {
+    match a {
+        TransportAddr::Relay(u) => u.to_string(),
+        TransportAddr::Ip(a) => a.to_string(),
+        TransportAddr::Custom(c) => c.to_string(),
+        _ => String::new(),
+    }
+}
+
+fn verdict_entry(s: &str) -> String {
+    let u = url::Url::parse(s).ok().map(|u| u.to_string());
+    let i = SocketAddr::from_str(s).ok().map(|a| a.to_string());
+    let c = CustomAddr::from_str(s).ok().map(|a| a.to_string());
+    format!("{}/{}/{}/{}", hs(s), opt_hs(u.as_deref()), opt_hs(i.as_deref()), opt_hs(c.as_deref()))
+}
+
+fn rand_addr(rng: &mut Rng) -> TransportAddr {
+    match rng.below(3) {
+        0 => {
+            let host = *rng.pick(&["relay.example.com", "euw1-1.relay.iroh.network.", "127.0.0.1", "[::1]"]);
+            let path = match rng.below(6) {
+                0 => "/?a=b=c&d==".to_string(),
+                1 => "/p=q/r".to_string(),
+                2 => format!("/{}", "a".repeat(rng.range(180, 260) as usize)),
+                _ => String::new(),
+            };
+            TransportAddr::Relay(RelayUrl::from_str(&format!("https://{host}{path}")).expect("url"))
+        }
+        1 => {
+            let port = *rng.pick(&[0u16, 1, 1234, 65535]);
+            if rng.bool() {
+                TransportAddr::Ip(SocketAddr::from(([10, 1, rng.byte(), rng.byte()], port)))
+            } else {
+                let mut b = [0u8; 16];
+                b[0] = 0xfd;
+                b[15] = rng.byte();
+                TransportAddr::Ip(SocketAddr::from((b, port)))
+            }
+        }
+        _ => {
+            let len = *rng.pick(&[0usize, 1, 6, 32]);
+            TransportAddr::Custom(CustomAddr::from_parts(*rng.pick(&[0u64, 42, u64::MAX]), &rng.bytes(len)))
+        }
+    }
+}
+
+fn parse_info_parts(a: &str, ud: &str) -> Option<(Vec<TransportAddr>, Option<String>)> {
+    let addrs = if a == "~" { vec![] } else { a.split(',').map(parse_addr_token).collect::<Option<Vec<_>>>()? };
+    let ud = if ud == "~" { None } else { Some(String::from_utf8(unhex(ud)?).ok()?) };
+    Some((addrs, ud))
+}
+
+fn parse_class(e: &ParseError) -> &'static str {
+    match e {
+        ParseError::UnexpectedFormat { .. } => "UnexpectedFormat",
+        ParseError::AttrFromString { .. } => "AttrFromString",
+        ParseError::NumLabels { .. } => "NumLabels",
+        ParseError::Utf8 { .. } => "Utf8",
+        ParseError::NotAnIrohRecord { .. } => "NotAnIrohRecord",
+        ParseError::DecodingError { .. } => "DecodingError",
+        _ => "Other",
+    }
+}
+
+/// What a resolved info is compared by: sorted address tokens and user data.
+type InfoKey = (Vec<String>, Option<String>);
+
+/// The resolver side: TXT query through the real DNS handler, then the real `from_txt_lookup`.
+async fn resolve(core: &Core, z: &str, origin: &str) -> (String, Option<(String, InfoKey)>) {
+    let name = format!("_iroh.{z}.{origin}");
+    let mut q = Packet::new_query(0x4242);
+    q.questions.push(Question::new(
+        Name::new_unchecked(name.trim_end_matches('.')).into_owned(),
+        QTYPE::TYPE(TYPE::TXT),
+        QCLASS::CLASS(CLASS::IN),
+        false,
+    ));
+    let Ok(resp) = core.dns_query(&q.build_bytes_vec().expect("query")).await else {
+        return ("handler-error".into(), None);
+    };
+    let Ok(p) = Packet::parse(&resp) else { return ("unparsable-response".into(), None) };
+    let strings: Vec<String> = p
+        .answers
+        .iter()
+        .filter_map(|a| match &a.rdata {
+            RData::TXT(t) => String::try_from(t.clone()).ok(),
+            _ => None,
+        })
+        .collect();
+    if p.rcode() != RCODE::NoError || strings.is_empty() {
+        return ("nxdomain".into(), None);
+    }
+    match EndpointInfo::from_txt_lookup(name, strings.iter()) {
+        Err(e) => (format!("err:{}", parse_class(&e)), None),
+        Ok(info) => {
+            let mut a: Vec<String> = info.addrs().map(addr_token).collect();
+            a.sort();
+            let ud = info.user_data().map(|u| u.as_ref().to_string());
+            let id = hex(info.endpoint_id.as_bytes());
+            (
+                format!("ok(id={id};a={};ud={})", if a.is_empty() { "~".to_string() } else { a.join(",") }, opt_hs(ud.as_deref())),
+                Some((id, (a, ud))),
+            )
+        }
+    }
+}
+
 #[derive(Debug)]
 struct Published {
     signer: u64,
@@ -153,6 +304,60 @@ impl Prop for C36 {
         let rests = ["", "_t", "_T", "a.b", "_iroh"];
         let types = ["TXT", "TXT", "A", "CNAME", "NS", "SOA"];
         let bad_label = "l0v2".repeat(13); // 52 characters outside the z-base-32 alphabet
+        // end-to-end scenarios: real EndpointInfo published and resolved, foreign publishes around it
+        let n_e2e = n / 3;
+        while out.len() < n_e2e {
+            let nkeys = rng.range(2, 3);
+            let base = rng.below(50) * 4;
+            let mut ops = vec![format!(
+                "keys {}",
+                (0..nkeys).map(|i| hex(secret(base + i).public().as_bytes())).collect::<Vec<_>>().join(" ")
+            )];
+            let mut texts: BTreeSet<String> = BTreeSet::new();
+            let mut body: Vec<String> = Vec::new();
+            for _ in 0..rng.range(2, 8) {
+                let mut addrs: Vec<TransportAddr> = Vec::new();
+                let na = match rng.below(8) {
+                    0 => 0,
+                    1 => rng.range(5, 7), // may exceed the packet size
+                    _ => rng.range(1, 3),
+                };
+                for _ in 0..na {
+                    let a = rand_addr(rng);
+                    if !addrs.contains(&a) {
+                        addrs.push(a);
+                    }
+                }
+                texts.extend(addrs.iter().map(addr_text));
+                let a = if addrs.is_empty() { "~".to_string() } else { addrs.iter().map(addr_token).collect::<Vec<_>>().join(",") };
+                let ud = match rng.below(4) {
+                    0 => "~".to_string(),
+                    1 => hs("k=v=w"),
+                    2 => hs(&"u".repeat(rng.range(1, 245) as usize)),
+                    _ => hs(&format!("ud{}", rng.below(100))),
+                };
+                let signer = rng.below(nkeys);
+                let other = (signer + 1) % nkeys;
+                body.push(match rng.below(10) {
+                    0 => format!("pub {signer} {other} {a} {ud}"),            // info of another id, own signature
+                    1 => format!("pubx {signer} {signer} {other} {a} {ud}"),  // strings placed in a foreign zone
+                    2 => format!("pubx {signer} {other} {other} {a} {ud}"),   // foreign zone AND foreign path: rejected
+                    3 => format!("pubx {signer} {signer} {signer} {a} {ud}"), // hand-made but honest
+                    _ => format!("pub {signer} {signer} {a} {ud}"),
+                });
+                for _ in 0..rng.range(0, 2) {
+                    body.push(format!("res {} {}", rng.below(nkeys), rng.pick(&["e", "r"])));
+                }
+            }
+            for k in 0..nkeys {
+                body.push(format!("res {k} e"));
+                body.push(format!("res {k} r"));
+            }
+            let dict = if texts.is_empty() { "~".to_string() } else { texts.iter().map(|t| verdict_entry(t)).collect::<Vec<_>>().join(",") };
+            ops.push(format!("dict {dict}"));
+            ops.extend(body);
+            out.push(ops.join(";"));
+        }
         while out.len() < n {
             let nkeys = rng.range(2, 3);
             // fresh keys per scenario (an offset keeps scenarios independent)
@@ -251,6 +456,9 @@ impl Prop for C36 {
             let mut honest: Vec<Published> = Vec::new();
             let mut kinds: BTreeSet<String> = BTreeSet::new();
             let mut answered = 0usize;
+            let mut e2e_ok = 0usize;
+            let mut newest: BTreeMap<u64, Option<InfoKey>> = BTreeMap::new(); // per signer: what its newest packet serves
+            let mut signed_by: BTreeMap<u64, Vec<InfoKey>> = BTreeMap::new(); // per signer: everything it signed
             for op in payload.split(';').filter(|s| !s.is_empty()) {
                 let t: Vec<&str> = op.split(' ').collect();
                 match t.as_slice() {
@@ -316,6 +524,87 @@ impl Prop for C36 {
                             }
                         }
                     }
+                    ["dict", _] => {}
+                    ["pub", signer, idkey, a, ud] | ["pubx", signer, _, idkey, a, ud] => {
+                        let is_x = t[0] == "pubx";
+                        let (sidx, sz) = keys[signer.parse::<usize>().expect("signer")].clone();
+                        let (iidx, iz) = keys[idkey.parse::<usize>().expect("id")].clone();
+                        let (pidx, pz) = if is_x { keys[t[2].parse::<usize>().expect("path")].clone() } else { (sidx, sz.clone()) };
+                        let Some((addrs, ud)) = parse_info_parts(a, ud) else { outs.push("bad-op".into()); continue };
+                        let user_data = ud.clone().map(|u| UserData::try_from(u).expect("user data fits"));
+                        let mut data = EndpointData::new(addrs.clone());
+                        data.set_user_data(user_data);
+                        let info = EndpointInfo::from_parts(secret(iidx).public(), data);
+                        let sk = secret(sidx);
+                        let payload: Result<Vec<u8>, String> = if is_x {
+                            let name = format!("_iroh.{iz}");
+                            let strings = info.to_txt_strings();
+                            if strings.iter().any(|v| v.len() > 255) {
+                                Err("DnsError".to_string()) // does not fit a DNS character-string
+                            } else {
+                                let recs: Vec<Rec> = strings.into_iter().map(|v| Rec::Txt(name.clone(), v)).collect();
+                                let dns = build_dns(7, &recs, 30);
+                                if dns.len() > 1000 {
+                                    Err("PacketTooLarge".to_string())
+                                } else {
+                                    Ok(relay_payload(&sk, Timestamp::now().as_micros(), &dns))
+                                }
+                            }
+                        } else {
+                            match info.to_pkarr_signed_packet(&sk, 30) {
+                                Ok(p) => Ok(p.to_relay_payload()),
+                                Err(e) => {
+                                    let iroh_dns::EncodingError::FailedBuildingPacket { source, .. } = e else { unreachable!() };
+                                    Err(match source {
+                                        SignedPacketBuildError::PacketTooLarge { .. } => "PacketTooLarge".to_string(),
+                                        SignedPacketBuildError::DnsError { .. } => "DnsError".to_string(),
+                                        _ => "Other".to_string(),
+                                    })
+                                }
+                            }
+                        };
+                        match payload {
+                            Err(class) => {
+                                kinds.insert("e2e-encode-error".into());
+                                outs.push(format!("enc-err:{class}"));
+                            }
+                            Ok(body) => {
+                                let status = core.pkarr_put(&pz, Bytes::from(body)).await;
+                                outs.push(status.to_string());
+                                if (sidx == pidx) != (status == 204) {
+                                    ex.violation("bad-signature-accepted", format!("`{}…` answered {status}", &op[..op.len().min(40)]));
+                                }
+                                if status == 204 {
+                                    let mut toks: Vec<String> = addrs.iter().map(addr_token).collect();
+                                    toks.sort();
+                                    let in_zone = iidx == sidx || !is_x;
+                                    let strings_empty = addrs.is_empty() && ud.is_none();
+                                    signed_by.entry(sidx).or_default().push((toks.clone(), ud.clone()));
+                                    newest.insert(sidx, if in_zone && !strings_empty { Some((toks, ud)) } else { None });
+                                    kinds.insert(if is_x { "e2e-handmade-publish" } else { "e2e-real-publish" }.into());
+                                }
+                            }
+                        }
+                    }
+                    ["res", idkey, org] => {
+                        let (kidx, z) = keys[idkey.parse::<usize>().expect("id")].clone();
+                        let origin = if *org == "e" { "irohdns.example." } else { "" };
+                        let (out, got) = resolve(&core, &z, origin).await;
+                        // oracle (1): what K published last is what resolves for K — same id, address set, user data
+                        let want = newest.get(&kidx).cloned().flatten();
+                        match (&want, &got) {
+                            (Some(w), Some((id, g))) if w == g && *id == hex(secret(kidx).public().as_bytes()) => e2e_ok += 1,
+                            (None, None) => {}
+                            _ => ex.violation("e2e-roundtrip-mismatch", format!("`{op}`: published {want:?}, resolved {out}")),
+                        }
+                        // oracle (2): whatever resolves for K was signed by K
+                        if let Some((_, g)) = &got {
+                            if !signed_by.get(&kidx).is_some_and(|v| v.contains(g)) {
+                                ex.violation("e2e-foreign-info", format!("`{op}` resolved {out}, never signed by that key"));
+                            }
+                        }
+                        outs.push(out);
+                    }
                     ["get", label] => outs.push(get(&core, label).await),
                     ["q", name, ty] => {
                         let (rcode, answers) = query(&core, name, ty).await;
@@ -362,7 +651,10 @@ impl Prop for C36 {
             }
             drop(core);
             ex.out = outs.join(" ");
-            ex.nontrivial = answered > 0 && kinds.len() > 1;
+            ex.nontrivial = (answered > 0 && kinds.len() > 1) || e2e_ok > 0;
+            if e2e_ok > 0 {
+                ex.tags.push("e2e-roundtrips-resolved".into());
+            }
             ex.tags.extend(kinds);
             ex.tags.push(format!("answered-queries={}", (answered / 5) * 5));
             ex
